@@ -11,7 +11,7 @@ namespace Unc
 
 /-- Kill the process before, during (torn write) or after any call of any in-place run: the target
     holds the complete original or the complete formatted bytes. -/
-theorem C13_crash_atomic (mode : Mode) (F : Bytes → FmtRes) (h : Bytes → Bytes) (f0 : FS) (orig : Bytes)
+theorem C13_crash_atomic (mode : FsMode) (F : Bytes → FmtRes) (h : Bytes → Bytes) (f0 : FS) (orig : Bytes)
     (h0 : f0.target = some orig) :
     ∀ g, CrashFrom f0 (doSourceFile Fix.fixed mode F h) g → TargetOK orig (F orig) g := by
   intro g hc
@@ -21,28 +21,28 @@ theorem C13_crash_atomic (mode : Mode) (F : Bytes → FmtRes) (h : Bytes → Byt
 example : ∃ g, CrashFrom ⟨some [1], none, none, none⟩
     (doSourceFile Fix.fixed .replace (fun _ => .ok [2, 3]) id) g ∧ g.target = some [2, 3] ∧ g.md5 = none := by
   refine ⟨⟨some [2, 3], none, some [1], none⟩, ?_, rfl, rfl⟩
-  simp [doSourceFile, restPart, backupPart, fmtPart, finishPart, md5Part, CrashFrom, Fix.fixed, Mode.backup, FS.get,
+  simp [doSourceFile, restPart, backupPart, fmtPart, finishPart, md5Part, CrashFrom, Fix.fixed, FsMode.backup, FS.get,
     FS.set, step, during]
 
 /-- … and (unless `--no-backup`) whenever the target no longer holds the original bytes, the backup
     file holds exactly the original bytes. -/
-theorem C13_backup_when_changed (mode : Mode) (F : Bytes → FmtRes) (h : Bytes → Bytes) (f0 : FS) (orig : Bytes)
+theorem C13_backup_when_changed (mode : FsMode) (F : Bytes → FmtRes) (h : Bytes → Bytes) (f0 : FS) (orig : Bytes)
     (h0 : f0.target = some orig) (hmode : mode ≠ .noBackup) :
     ∀ g, CrashFrom f0 (doSourceFile Fix.fixed mode F h) g → BackupOK h orig f0 g := by
   intro g hc
   obtain ⟨st, hr⟩ := crash_reach _ f0 g 0 false hc
-  have hb : mode.backup = true := by cases mode <;> simp_all [Mode.backup]
+  have hb : mode.backup = true := by cases mode <;> simp_all [FsMode.backup]
   exact (reach_doSourceFile mode F h f0 orig h0 _ hr).2.1 hb
 
 /-- non-vacuity: a crash state in which the target already holds the formatted bytes; the backup holds the original -/
 example : ∃ g, CrashFrom ⟨some [1], some [5], some [9], none⟩
     (doSourceFile Fix.fixed .oEqualsF (fun _ => .ok [2, 3]) id) g ∧ g.target ≠ some [1] ∧ g.bak = some [1] := by
   refine ⟨⟨some [2, 3], none, some [1], none⟩, ?_, by decide, rfl⟩
-  simp [doSourceFile, restPart, backupPart, fmtPart, finishPart, md5Part, CrashFrom, Fix.fixed, Mode.backup, FS.get,
+  simp [doSourceFile, restPart, backupPart, fmtPart, finishPart, md5Part, CrashFrom, Fix.fixed, FsMode.backup, FS.get,
     FS.set, step, during]
 
 /-- the md5-free case, as C13 literally states it -/
-theorem C13_backup_when_changed_no_md5 (mode : Mode) (F : Bytes → FmtRes) (h : Bytes → Bytes) (f0 : FS)
+theorem C13_backup_when_changed_no_md5 (mode : FsMode) (F : Bytes → FmtRes) (h : Bytes → Bytes) (f0 : FS)
     (orig : Bytes) (h0 : f0.target = some orig) (hmode : mode ≠ .noBackup) (hm : f0.md5 ≠ some (h orig)) :
     ∀ g, CrashFrom f0 (doSourceFile Fix.fixed mode F h) g → g.target ≠ some orig → g.bak = some orig := by
   intro g hc hne
@@ -56,7 +56,7 @@ example : (⟨some [1], none, some [9], some [7]⟩ : FS).md5 ≠ some (id [1]) 
     anywhere: target and backup clauses still hold, and a run in which a call failed (other than
     the two tolerated read-side probes) never exits with status 0.  `F orig = fail st _` is a
     formatting failure, whose status is non-zero by C06. -/
-theorem C13_fault_atomic (mode : Mode) (F : Bytes → FmtRes) (h : Bytes → Bytes) (f0 : FS) (orig : Bytes)
+theorem C13_fault_atomic (mode : FsMode) (F : Bytes → FmtRes) (h : Bytes → Bytes) (f0 : FS) (orig : Bytes)
     (h0 : f0.target = some orig) (hst : ∀ st p, F orig = .fail st p → st ≠ 0) :
     ∀ o, Reach f0 0 false (doSourceFile Fix.fixed mode F h) o →
       TargetOK orig (F orig) o.fs
@@ -64,7 +64,7 @@ theorem C13_fault_atomic (mode : Mode) (F : Bytes → FmtRes) (h : Bytes → Byt
       ∧ (o.hard = true → o.status ≠ some 0) := by
   intro o hr
   obtain ⟨a, b, c⟩ := reach_doSourceFile mode F h f0 orig h0 o hr
-  refine ⟨a, fun hmode => b (by cases mode <;> simp_all [Mode.backup]), c hst⟩
+  refine ⟨a, fun hmode => b (by cases mode <;> simp_all [FsMode.backup]), c hst⟩
 
 /-- non-vacuity: the rename fails (EACCES) after everything else went well: exit 74, original intact -/
 example : ∃ o, Reach ⟨some [1], none, none, none⟩ 0 false
@@ -73,7 +73,7 @@ example : ∃ o, Reach ⟨some [1], none, none, none⟩ 0 false
   ⟨_, exec_reach _ _ [.ok, .ok, .ok, .ok, .ok, .err 0] 0 false, by decide⟩
 
 /-- the single-fault and fault-pair instances the check enumerates on the binary -/
-theorem C13_fault_atomic_pairs (mode : Mode) (F : Bytes → FmtRes) (h : Bytes → Bytes) (f0 : FS) (orig : Bytes)
+theorem C13_fault_atomic_pairs (mode : FsMode) (F : Bytes → FmtRes) (h : Bytes → Bytes) (f0 : FS) (orig : Bytes)
     (h0 : f0.target = some orig) (hst : ∀ st p, F orig = .fail st p → st ≠ 0) :
     ∀ o, Reach f0 0 false (doSourceFile Fix.fixed mode F h) o → o.faults ≤ 2 →
       TargetOK orig (F orig) o.fs ∧ (mode ≠ .noBackup → BackupOK h orig f0 o.fs)
@@ -88,7 +88,7 @@ example : ∃ o, Reach ⟨some [1], none, none, some [7]⟩ 0 false
 
 /-- A formatting failure (any exit inside `uncrustify_file`) leaves the original bytes in place, at
     every instant and under any faults. -/
-theorem C13_fmt_failure_leaves_orig (mode : Mode) (F : Bytes → FmtRes) (h : Bytes → Bytes) (f0 : FS)
+theorem C13_fmt_failure_leaves_orig (mode : FsMode) (F : Bytes → FmtRes) (h : Bytes → Bytes) (f0 : FS)
     (orig : Bytes) (h0 : f0.target = some orig) (st : Nat) (part : Bytes) (hF : F orig = .fail st part) :
     ∀ o, Reach f0 0 false (doSourceFile Fix.fixed mode F h) o → o.fs.target = some orig := by
   intro o hr
